@@ -89,6 +89,29 @@ func isNilPointer(v Value) bool {
 	return r.Kind() == reflect.Ptr && r.IsNil()
 }
 
+// underlying returns v as a value of the predeclared type that its type is
+// defined from, if that is a boolean, numeric or string type (such as
+// "type Level int"). Values of such types coerce like their underlying type
+// unless they implement Stringer, Number or Boolean.
+func underlying(v Value) (Value, bool) {
+	r := reflect.ValueOf(v)
+	switch r.Kind() {
+	case reflect.Bool:
+		return r.Bool(), true
+	case reflect.Int, reflect.Int8, reflect.Int16, reflect.Int32, reflect.Int64:
+		return r.Int(), true
+	case reflect.Uint, reflect.Uint8, reflect.Uint16, reflect.Uint32, reflect.Uint64, reflect.Uintptr:
+		return r.Uint(), true
+	case reflect.Float32:
+		return float32(r.Float()), true
+	case reflect.Float64:
+		return r.Float(), true
+	case reflect.String:
+		return r.String(), true
+	}
+	return nil, false
+}
+
 // CoerceBool coerces the given value into a boolean. Boolean false is returned
 // if the value cannot be coerced.
 func CoerceBool(v Value) bool {
@@ -134,6 +157,10 @@ func CoerceBool(v Value) bool {
 		return len(vc.String()) > 0
 	case Number:
 		return vc.Number() > 0
+	default:
+		if u, ok := underlying(v); ok {
+			return CoerceBool(u)
+		}
 	}
 	return false
 }
@@ -196,6 +223,10 @@ func CoerceNumber(v Value) float64 {
 		if vc {
 			return 1
 		}
+	default:
+		if u, ok := underlying(v); ok {
+			return CoerceNumber(u)
+		}
 	}
 	return 0
 }
@@ -229,7 +260,10 @@ func CoerceString(v Value) string {
 		if vc == true {
 			return "1" // Twig compatibility (aka PHP compatibility)
 		}
-
+	default:
+		if u, ok := underlying(v); ok {
+			return CoerceString(u)
+		}
 	}
 	return ""
 }
